@@ -184,6 +184,37 @@ Definition list_append (h : heap) (l : lval) (v : Z) : res (heap * lval) :=
   do h4 <- hfree h3 (data l);
   Safe (h4, mklist (Some nx) (S (size l))).
 
+(* ---- the argument `const T &value` of append / remove.  The script's argument expression is either
+   a scalar / temporary (passed by value: [AVal]) or an element of a list, `y[i]`, emitted as
+   __redu_list_get(y, i): then `value` is a REFERENCE into y's buffer ([ARef], y may be the very list
+   that is appended to) and the cell is read at the moment the helper reads `value` - for append
+   AFTER the copy loop and BEFORE delete[] of the old buffer. *)
+Inductive argv : Type := AVal (v : Z) | ARef (src : lval) (i : Z).
+
+Definition arg_read (h : heap) (a : argv) : res Z :=
+  match a with
+  | AVal v => Safe v
+  | ARef src i => list_get h src i
+  end.
+
+(* forming the reference `list.data[index]` at the call site: binding a reference to an element of a null
+   buffer is undefined behaviour on its own (UBSan: reference binding to null pointer), read or not *)
+Definition arg_bind (a : argv) : res unit :=
+  match a with
+  | AVal _ => Safe tt
+  | ARef src _ => match data src with Some _ => Safe tt | None => Unsafe OutOfBounds end
+  end.
+
+(* T *next = new T[size + 1]; copy; next[size] = value (reads the reference); delete[] data; ... *)
+Definition list_append_a (h : heap) (l : lval) (a : argv) : res (heap * lval) :=
+  do _ <- arg_bind a;
+  let '(h1, nx) := alloc h (size l + 1) in
+  do h2 <- copy_loop h1 (data l) (Some nx) 0 (size l);
+  do v <- arg_read h2 a;
+  do h3 <- hwrite h2 (Some nx) (size l) v;
+  do h4 <- hfree h3 (data l);
+  Safe (h4, mklist (Some nx) (S (size l))).
+
 Definition list_remove (h : heap) (l : lval) (v : Z) : res (heap * lval) :=
   if size l =? 0 then Safe (h, l)
   else
@@ -198,6 +229,13 @@ Definition list_remove (h : heap) (l : lval) (v : Z) : res (heap * lval) :=
       let '(h3, next) := hn in
       do h4 <- hfree h3 (data l);
       Safe (h4, mklist next (size l - 1)).
+
+(* `value` is only read by the comparisons of the search loop (never when the list is empty), on
+   the unchanged heap, and never after delete[] *)
+Definition list_remove_a (h : heap) (l : lval) (a : argv) : res (heap * lval) :=
+  do _ <- arg_bind a;
+  if size l =? 0 then Safe (h, l)
+  else do v <- arg_read h a; list_remove h l v.
 
 (* [same] is the C++ test &dest == &source (the two arguments are the same variable) *)
 Definition list_assign (h : heap) (dest source : lval) (same : bool) : res (heap * lval) :=
